@@ -17,6 +17,7 @@ import glob
 import hashlib
 import json
 import os
+import random
 import re
 import shutil
 import sys
@@ -400,6 +401,30 @@ def gen_case_race(rng, cid):
     return dict(cfg, id=cid, t0=t0, pre=gen_pre(rng, cfg, t0), ops=ops, threads=nth, race=True)
 
 
+def gen_case_hold(rng, cid):
+    """a thread keeps the RollingWriter it got from make_writer (a read guard on the file) while another thread wins the
+    rotation of the next boundary and reaches the file lock; afterwards plain writes inside the new period(s).  Oracle only
+    (like the race cases): the rotation must still happen - the later writes land in their period's file."""
+    cfg = gen_config(rng, "s")
+    if cfg["rot"] == "n":
+        cfg["rot"] = rng.choice(["m", "h", "d"])
+    P = PER[cfg["rot"]]
+    nth = rng.randint(2, 4)
+    t0 = clamp(rng.choice(ANCHORS) + rng.randint(-2 * P, 2 * P))
+    t = t0
+    ops = []
+    k = 0
+    for _ in range(rng.randint(1, 3)):
+        h, r = rng.sample(range(nth), 2)
+        t_hold = t
+        t = clamp(rnd(cfg["rot"], t) + P * rng.choice([1, 1, 1, 2, 5]) + rng.choice([0, 0, 1, P // 2, P - 1]))
+        ops.append(["hold", [h, r], t, [mkbuf(k, rng).hex(), mkbuf(k + 1, rng).hex()], t_hold]); k += 2
+        for _ in range(rng.randint(1, 3)):
+            t = min(t + rng.choice([0, 1, P // 3]), rnd(cfg["rot"], t) + P - 1)
+            ops.append(["w", rng.randrange(nth), t, mkbuf(k, rng).hex()]); k += 1
+    return dict(cfg, id=cid, t0=t0, pre=gen_pre(rng, cfg, t0), ops=ops, threads=nth, race=True)
+
+
 def gen_malformed(rng, cid):
     """outside the property's quantifier (limit 0, pre-1970 or out-of-range clocks): nothing is demanded,
     the harness must survive and report"""
@@ -729,6 +754,10 @@ def oracle_race(rep, case, obs):
             mine = [n for n in nfiles if py_matches(case, n)]
             if len(mine) > mx:
                 o.fail("%d log files after a rotation with max_log_files=%d: %s" % (len(mine), mx, sorted(mine)), k)
+        if crossing and st["rot"] >= 1 and want not in nfiles:
+            # every call of this operation has returned, so the elected rotation is complete (all threads read the same clock:
+            # nothing can have superseded it): its period's file must be there - whoever held a writer meanwhile
+            o.fail("the rotation elected at clock %d is over but its period's file %r was never opened (the boundary caused no rotation)" % (t, want), k)
         if crossing:
             cur = want
         files, created = nfiles, ncreated
@@ -1222,6 +1251,8 @@ def run(ctx):
     cases += [gen_case_s(rng, "s%d" % i, template="overlap" if i % 4 == 0 else ("casrace" if (yield0 and i % 4 == 2) else None), yield0=yield0)
               for i in range(ns)]
     cases += [gen_case_race(rng, "r%d" % i) for i in range(nr)]
+    rng_h = random.Random(ctx.seed * 7919 + 16)       # its own stream: the other generators' cases per seed stay what they were
+    cases += [gen_case_hold(rng_h, "hold%d" % i) for i in range(60 if ctx.thorough() else 12)]
     cases += [gen_malformed(rng, "bad%d" % i) for i in range(nm)]
     nrs, nl = (60, 30) if not ctx.thorough() else (300, 120)
     cases += [gen_case_restart(rng, "rs%d" % i) for i in range(nrs)]
@@ -1304,7 +1335,7 @@ def run(ctx):
                 cross = jumps = 0
                 hi = prev = c["t0"]
                 for op in c["ops"]:
-                    if op[0] not in ("w", "park", "park0", "race"):
+                    if op[0] not in ("w", "park", "park0", "race", "hold"):
                         continue
                     t = op[2]
                     # what kind of clock step this is (relative to the boundary the appender is waiting for)
